@@ -26,11 +26,12 @@ PROPS = {
         "trusted_base": ["LoRaWAN 1.0 sections 4.3.3 and 4.4 transcribed as Spec/Lorawan.lean"],
     },
     "C03": {
-        "theorems": {**thms(P + "C03", ["C03_accepted_strictly_increasing", "C03_accepted_below_stored", "C03_no_second_acceptance", "C03_record_needs_accept", "C03_old_counter_rejected", "C03_failed_write_stops"]),
-                     **thms("LospanVerif.Proofs.Counters", ["cinv_run", "eff_step"])},
+        "theorems": {**thms(P + "C03", ["C03_recorded_once", "C03_insert_records", "C03_accepted_strictly_increasing", "C03_accepted_below_stored", "C03_no_second_acceptance", "C03_record_needs_accept", "C03_old_counter_rejected", "C03_failed_write_stops"]),
+                     **thms("LospanVerif.Proofs.Counters", ["cinv_run", "eff_step"]),
+                     **thms("LospanVerif.Proofs.Circ", ["kinv_run", "k_step", "k_after", "up_stepUplink"])},
         "ties": PIPE_TIES,
         "engines": ["pipeseq", "pipectl"],
-        "assumptions": ["each storage operation is atomic (AdvanceFCntUp is one SQL statement; Tie.Storage)", "the link from 'AdvanceFCntUp succeeded for (device, counter)' to 'one inbox row' is the handler's program order (C03_record_needs_accept + C10_inbox_only_after_counter), not a single composed theorem"],
+        "assumptions": ["each storage operation is atomic (AdvanceFCntUp is one SQL statement; Tie.Storage)", "recordedUp is a history variable written in the same step as the inbox row (C03_insert_records); it carries the frame's FCnt, which the inbox row itself does not store"],
         "trusted_base": ["pipeline handlers transcribed as thread programs in Model/Pipeline.lean"],
     },
     "C04": {
@@ -57,7 +58,7 @@ PROPS = {
     "C07": {
         "theorems": {**thms(P + "C07", ["C07_emitted_counter_unique", "C07_issued_strictly_increasing", "C07_issued_below_stored", "C07_next_is_fresh", "C07_encodes_with_issued_counter", "C07_persists_before_handover", "C07_failed_write_no_frame", "C07_handover", "C07_handover_records"]),
                      **thms("LospanVerif.Proofs.Counters", ["cinv_run", "eff_step"]),
-                     **thms("LospanVerif.Proofs.Circ", ["kinv_run", "k_step", "ls_stepEncoder"])},
+                     **thms("LospanVerif.Proofs.Circ", ["kinv_run", "k_step", "k_after", "dn_stepEncoder"])},
         "ties": PIPE_TIES,
         "engines": ["pipeseq", "pipectl"],
         "assumptions": ["NextFCntDn is atomic (one transaction inside the storage mutex; Tie.Storage)", "the FCnt recorded in the history variable emittedDn is the FCnt field of the frame value the encoder thread carries; that the emitted octets were encoded from that value is the per-step theorem C07_encodes_with_issued_counter", "a join starts a new session (new keys); uniqueness is per session and until the 16-bit counter wraps"],
@@ -179,9 +180,9 @@ MANIFEST_TEXT = {
         "technique": "Lean 4 proof (model = spec for cipher and MIC) + differential correspondence against an executable Lean LoRaWAN device",
     },
     "C03": {
-        "level": "Lean theorems for EVERY event list of the pipeline transition system (all interleavings of handler/scheduler/encoder steps at storage-operation granularity, any number of frames and devices, injected faults, crashes): the counters accepted for a device strictly increase within a session (C03_accepted_strictly_increasing), every accepted counter stays below the stored one (C03_accepted_below_stored), so a copy or an older counter can never move the counter again (C03_no_second_acceptance); a strict device's frame reaches the inbox step only through a successful conditional update for its counter (C03_record_needs_accept). The model is tied by regenerated facts (handler call order and error dispositions, SQL text of AdvanceFCntUp) and by trace validation of the real goroutines under controlled schedules (copies, uplink vs encoder), plus sequential histories judged by a reference observer.",
-        "note": "partial only in that atomicity of one SQL statement and of a mutex-protected transaction is trusted (SQLite), and the step 'accepted counter -> one inbox row' is program order proved per step, not one composed theorem",
-        "technique": "Lean 4 proof (invariant by induction over all event lists) + regenerated facts + trace correspondence under controlled schedules",
+        "level": "Lean theorems for EVERY event list of the pipeline transition system (all interleavings of handler/scheduler/sendAt/encoder steps at storage-operation granularity, any number of frames, devices and gateways, injected faults, crashes): no (device, FCnt) of a running counter epoch is written to the inbox twice for a strict-counter device, and every recorded one went through a successful conditional counter update (C03_recorded_once: thread-pool invariant 'every counter in circulation - carried by a handler between the counter step and the inbox insert, or already recorded - was accepted, at most once', Proofs/Circ.lean); the counters accepted for a device strictly increase within a session and stay below the stored one (C03_accepted_strictly_increasing, C03_accepted_below_stored), so a copy or an older counter can never move the counter again (C03_no_second_acceptance). Tied by regenerated facts (handler call order and error dispositions, SQL text of the conditional update) and by trace validation of the real goroutines under controlled schedules (copies, uplink vs encoder), plus sequential histories judged by a reference observer.",
+        "note": "partial only in that atomicity of one SQL statement is trusted (SQLite); a join starts a new epoch, the 16-bit wrap ends one (excused by the property)",
+        "technique": "Lean 4 proof (counter invariant + thread-pool circulation invariant by induction over all event lists) + regenerated facts + trace correspondence under controlled schedules",
     },
     "C04": {
         "level": "Lean theorems for every block function: a join-request passes the first handler step only if 23 octets, registered device, MIC under its AppKey over the first 19 octets (otherwise no effect); stored session keys = spec derivation on the octets on the air; the emitted join-accept is decrypted/verified/read by the spec device exactly as meant (given D inverts E); the library's join-request encoder = spec. End to end on the real pipeline: every honoured join's stored keys/address/counters equal what the Lean device derives from the emitted join-accept; forged/altered/wrong-length/swapped-EUI requests have no effect.",
